@@ -189,6 +189,11 @@ def main():
     if a.replay:
         return mod.replay(ctx, json.load(open(a.replay)))
     evidence_path = os.path.join(VERIF, 'evidence', a.pid + '.json')
+    # replay files of earlier runs of this check and tier would be mistaken for this run's
+    import glob as _glob
+    for old in _glob.glob(os.path.join(VERIF, 'replays', '%s_%s_*.json' % (a.pid, ctx.tier))):
+        try: os.unlink(old)
+        except OSError: pass
     try:
         run_extract(ctx)
         ok = build(ctx, mod.LEAN_MODULES)
